@@ -495,7 +495,12 @@ def _gen_print(g, r, dom, readable, o):
             if r.random() < 0.4:
                 parts.append(["const", 0, 8 * r.randint(1, 2), False])
             e = ["cat", parts]
-        chunks.append([e, spec])
+        if not spec.endswith(("c", "s")) and r.random() < 0.2:
+            # the width given by a nested replacement field (automatic numbering: the value first, then the nested argument)
+            ty = spec[-1] if spec and spec[-1] in "dboxX" else ""
+            chunks.append([e, r.choice(["", "0", ">", "*<", "+"]) + "{}" + ty, [r.randint(1, 14)]])
+        else:
+            chunks.append([e, spec])
     if r.random() < 0.3:
         chunks.append(r.choice(["!", " end", ""]))
     if o.get("asserts") and r.random() < 0.35:
@@ -503,6 +508,14 @@ def _gen_print(g, r, dom, readable, o):
         a = g.explicit(readable, 1)
         cond = r.choice([["!=", a, ["const", r.randrange(8), 3, False]], g.numeric(readable, 1), ["<", a, ["const", 13, 5, False]]])
         return ["assert", dom, cond, chunks if r.random() < 0.7 else None, r.choice(["assert", "assume"])]
+    if r.random() < 0.3:
+        # several arguments, like Python's print(): a Format, plain strings (possibly empty), bare values; sep / end
+        args = [["fmt", chunks]]
+        for _ in range(r.randint(0, 2)):
+            q = r.random()
+            a = ["str", r.choice(["", "", "x", "a b"])] if q < 0.5 else ["val", g.explicit(readable, 1)]
+            args.insert(r.randint(0, len(args)), a)
+        return ["print", dom, chunks, {"args": args, "sep": r.choice([" ", " ", "", "|", ", "]), "end": r.choice(["\n", "\n", "", ";\n"])}]
     return ["print", dom, chunks]
 
 
@@ -633,6 +646,8 @@ def build(prog):
             else:
                 s += "{:" + ch[1] + "}" if ch[1] else "{}"
                 args.append(ex(ch[0]))
+                if len(ch) > 2:
+                    args.extend(ch[2])
         return Format(s, *args)
 
     def emit(m, stmts, fsm_ctx):
@@ -687,7 +702,11 @@ def build(prog):
                 else:
                     raise RuntimeError("progen: a statement driving already-driven bits from another domain was accepted")
             elif k == "print":
-                m.d[st[1]] += Print(fmt(st[2]))
+                if len(st) > 3:
+                    pa = [fmt(a[1]) if a[0] == "fmt" else (a[1] if a[0] == "str" else ex(a[1])) for a in st[3]["args"]]
+                    m.d[st[1]] += Print(*pa, sep=st[3]["sep"], end=st[3]["end"])
+                else:
+                    m.d[st[1]] += Print(fmt(st[2]))
             elif k == "assert":
                 cls = Assert if st[4] == "assert" else Assume
                 m.d[st[1]] += cls(ex(st[2]), fmt(st[3])) if st[3] is not None else cls(ex(st[2]))
